@@ -591,12 +591,13 @@ struct FftSim : PopSim
   FftSim(const std::string& n, std::function<Model*()> m, bool q, int nx = 4, int ny = 4)
   {
     family = "fft"; name = n; mk = m; quick = q;
-    nxy = {nx, ny};
-    nodes = {0, 1, 2, nx, 2 * nx};
+    if (ny > 0) { nxy = {nx, ny}; nodes = {0, 1, 2, nx, 2 * nx}; }
+    else        { nxy = {nx};     nodes = {0, 1, 2, 3}; }          // 1-D grid (ny = 0): lags 1, 2, 3
   }
   bool prepare(Ctx& C, const std::string& kase) override
   {
-    defineDefaultSpace(ESpaceType::RN, 2);
+    int ndim = (int)nxy.size();
+    defineDefaultSpace(ESpaceType::RN, ndim);
     model = mk();
     grid = DbGrid::create(nxy);
     SimuFFTParam param(true, 0.1);
@@ -614,7 +615,8 @@ struct FftSim : PopSim
     for (int a = 0; a < K; a++)
       for (int b = 0; b < K; b++)
       {
-        VectorDouble pa{grid->getCoordinate(nodes[a], 0), grid->getCoordinate(nodes[a], 1)}, pb{grid->getCoordinate(nodes[b], 0), grid->getCoordinate(nodes[b], 1)};
+        VectorDouble pa, pb;
+        for (int d = 0; d < ndim; d++) { pa.push_back(grid->getCoordinate(nodes[a], d)); pb.push_back(grid->getCoordinate(nodes[b], d)); }
         Cm[a * K + b] = model->eval(SpacePoint(pa), SpacePoint(pb));
       }
     extraNote = "dilated grid " + std::to_string(calc->_dims[0]) + "x" + std::to_string(calc->_dims[1]) + " shift " + std::to_string(calc->_shift[0]) + "," + std::to_string(calc->_shift[1]);
@@ -829,13 +831,15 @@ static std::vector<PopSim*> pop_menu()
   V.push_back(new SpecSim("exponential-aniso", [] { return Model::createFromParam(ECov::EXPONENTIAL, 1., 1., 1., {3., 1.}, VectorDouble(), {30., 0.}); }, 10, false));
   V.push_back(new SpecSim("matern1", [] { return Model::createFromParam(ECov::MATERN, 2., 1., 1.); }, 10, false));
   V.push_back(new SpecSim("exponential-sill2", [] { return Model::createFromParam(ECov::EXPONENTIAL, 2., 2.); }, 10, false));
-  V.push_back(new FftSim("spherical", [] { return Model::createFromParam(ECov::SPHERICAL, 2.5, 1.5); }, true));
+  V.push_back(new FftSim("spherical", [] { return Model::createFromParam(ECov::SPHERICAL, 2.5, 1.5); }, false));
   V.push_back(new FftSim("exponential", [] { return Model::createFromParam(ECov::EXPONENTIAL, 2., 1.5); }, false));
   V.push_back(new FftSim("gaussian", [] { return Model::createFromParam(ECov::GAUSSIAN, 2., 0.75); }, false));
   V.push_back(new FftSim("spherical-aniso", [] { return Model::createFromParam(ECov::SPHERICAL, 1., 2., 1., {3., 1.5}); }, false));
   // a grid whose dilated dimensions differ along x and y (5x3 -> 8x6): exercises the storage order of the spectrum
   V.push_back(new FftSim("spherical-5x3", [] { return Model::createFromParam(ECov::SPHERICAL, 2.5, 1.5); }, false, 5, 3));
   V.push_back(new SpdeSim("matern1-turbo7x7", false));
+  // the cheap FFT configuration of the quick tier: 1-D grid of 4 nodes (dilated to 8), lags 1-3
+  V.push_back(new FftSim("spherical-1d", [] { return Model::createFromParam(ECov::SPHERICAL, 2.5, 1.5); }, true, 4, 0));
   return V;
 }
 
